@@ -16,7 +16,7 @@ import time
 
 import z3
 
-MAX_TERMS = 28
+MAX_TERMS = 40
 MAX_INST = 6000
 
 
@@ -75,7 +75,9 @@ def _collect_ground(fs):
             for c in e.children():
                 walk(c)
 
-    for f in fs:
+    # the negated goal is asserted last: visit it first so that its skolem
+    # constants are never cut off by the per-variable cap
+    for f in reversed(list(fs)):
         walk(f)
     return bypos, bysort
 
@@ -237,12 +239,21 @@ def ground_check(smt, timeout_ms=20000, rounds=3):
     for sub in res:
         for f in sub:
             flat.append(f)
-    stats = dict(instances=0, skipped=0, terms=0)
+    stats = dict(instances=0, skipped=0, terms=0, rounds=0)
     qc = {}
     cur = flat
+    has_fp = 'FloatingPoint' in smt or 'Float64' in smt
+    r = z3.unknown
+    s = None
+    deadline = t0 + timeout_ms / 1000.0
+    # iterative deepening: instantiate with the ground terms of the previous
+    # round, check; `unsat` at any depth is final (instances are consequences),
+    # `sat` asks for one more round (the candidate model may violate deeper
+    # instances)
     for rnd in range(rounds):
         terms = _collect_ground(cur)
         stats['terms'] = sum(len(v) for v in terms[1].values())
+        stats['rounds'] = rnd + 1
         out = []
         cache = {}
         for f in flat:
@@ -251,27 +262,31 @@ def ground_check(smt, timeout_ms=20000, rounds=3):
             else:
                 out.append(f)
         cur = out
-    has_fp = 'FloatingPoint' in smt or 'Float64' in smt
-    r = z3.unknown
-    s = None
-    if has_fp:
-        # bit-blasting tactic chain is orders of magnitude faster here than the
-        # default combination of theories
-        try:
-            s = z3.Then('simplify', 'propagate-values', 'solve-eqs',
-                        'qffp').solver()
-            s.set('timeout', timeout_ms)
+        left = int((deadline - time.time()) * 1000)
+        if left <= 0:
+            r = z3.unknown
+            break
+        r = z3.unknown
+        if has_fp:
+            try:
+                s = z3.Then('simplify', 'propagate-values', 'solve-eqs',
+                            'qffp').solver()
+                s.set('timeout', left)
+                for f in cur:
+                    s.add(f)
+                r = s.check()
+            except z3.Z3Exception:
+                r = z3.unknown
+        if r == z3.unknown:
+            s = z3.Solver()
+            s.set('timeout', max(left, 1))
             for f in cur:
                 s.add(f)
             r = s.check()
-        except z3.Z3Exception:
-            r = z3.unknown
-    if r == z3.unknown:
-        s = z3.Solver()
-        s.set('timeout', timeout_ms)
-        for f in cur:
-            s.add(f)
-        r = s.check()
+        if r == z3.unsat:
+            break
+        if stats['terms'] > 600:
+            break
     model = None
     if r == z3.sat:
         m = s.model()
